@@ -27,6 +27,9 @@ CHECKS = {
  "C16": dict(level="model_checking", technique="explicit-state BFS of a Go reference state machine; every model trace replayed step by step against the real cla.Manager",
    text="A reference state machine of the adapter registry (registered instance, active, retry budget, closed) is explored breadth-first to its fixpoint for permanent/non-permanent adapters and initial budgets 0..3, plus every enabled event sequence up to depth 3 (quick) / 4 (thorough) without state merging. Every trace is replayed on a fresh real Manager with scripted adapters under the virtual clock in worker processes (a crash of the manager goroutine is attributed to the trace); after each step Sender()/Receiver() and the Start/Close call log must equal the reference, Close must return and stop every started adapter exactly once.",
    note="Trusted: vtime shim delivering the manager's ticker ticks, two-line cla bridge (inject into inChnl, set queueTtl). Events after Close are not explored. The reference machine mirrors the implementation where the statement is silent (re-registering an inactive address re-tries the stored instance).", design="3/C16"),
+ "C11": dict(level="model_checking", technique="exhaustive enumeration of (length, segment size) pairs, fault points and all message interleavings of two concurrent transfers on real TransferManagers with the harness as the network",
+   text="Real TransferManagers are joined by a harness that plays the network: every (L, m) with 1<=m<=L+2 over consecutive encoded lengths (so every divisor case occurs) plus sizes around 2^20 (segment sizes, START/END placement, concatenation, exactly-one identical bundle delivered, Send nil => delivered); every fault point (peer silent, refusing with each reason code, session closed, short/zero acknowledgement) at every segment index on an (L,m) grid with the acknowledgement timeout fired by the virtual clock; and all interleavings of the segments of two concurrent transfers (same and opposite direction, 2-3 segments each) crossed with all interleavings of the acknowledgements.",
+   note="Trusted: vh harness inside pkg/cla/tcpclv4 of the scratch copy; vtime shim. Real TCP/WebSocket scheduling is not modelled (any order a reliable per-flow-ordered link can produce is explored).", design="3/C11"),
 }
 NA_REASON = "check not built yet in this round (planned in DESIGN.md section 3)"
 
